@@ -3,10 +3,10 @@
 (* Trace validation for C12: every line of the trace is one real call of   *)
 (* pkg/slice made by harness/drv_slice on a pool of real slice values,     *)
 (* followed by the OBSERVED contents of every pool value.  A line is       *)
-(* accepted iff it is an instance of the corresponding action of the heap  *)
-(* machine GoSliceHeap (Deviations = {}) and afterwards every observed     *)
-(* value equals the machine's value -- so Purity is evaluated on what the  *)
-(* real code did, after every step.  Only observable contents are bound;   *)
+(* accepted iff it is a memory-level action of the heap machine            *)
+(* GoSliceHeap (Deviations = {}) producing the logged result and afterwards*)
+(* every observed value equals the machine's value -- so Purity is         *)
+(* evaluated on what the real code did, after every step.  Only observable contents are bound;   *)
 (* capacities and array identities are left to the machine, so a change of *)
 (* allocation strategy that keeps the property is not rejected.            *)
 (* A line no action explains is recorded in bad and the rest of that       *)
@@ -28,28 +28,25 @@ Observed(t) ==
   /\ Len(t.pool) = Len(pool')
   /\ \A i \in 1..Len(pool') : t.pool[i] = Contents(heap', pool'[i])
 
+\* The value a call returned is taken from the trace (t.pool[Len(t.pool)]): WHAT a function returns is C13's
+\* business (SliceLibTrace), here only the memory behaviour is judged.  A Tail/PopLast result is the aliasing
+\* view the machine prescribes when the logged contents agree with it, otherwise (like every other result) a
+\* fresh array holding the logged contents.
+Ret(t) == t.pool[Len(t.pool)]
+Rec(t) == H(t.op, t.i, t.j, t.n, t.e, t.f)
+
 Act(t) ==
   CASE t.op = "Init"     -> AddInit(t.i, t.j, t.n)
-    [] t.op = "Tail"     -> DoTail(t.i)
-    [] t.op = "PopLast"  -> DoPopLast(t.i)
-    [] t.op = "Take"     -> DoTake(t.n, t.i)
-    [] t.op = "Skip"     -> DoSkip(t.n, t.i)
-    [] t.op = "PushLast" -> DoPushLast(t.e, t.i)
-    [] t.op = "PushHead" -> DoPushHead(t.e, t.i)
-    [] t.op = "Append"   -> DoAppend(t.i, t.j)
-    [] t.op = "Concat"   -> DoConcat(t.i, t.j)
-    [] t.op = "Map"      -> DoMap(t.f, t.i)
-    [] t.op = "Mapi"     -> DoMapi(t.f, t.i)
-    [] t.op = "Collect"  -> DoCollect(t.f, t.i)
-    [] t.op = "Filter"   -> DoFilter(t.f, t.i)
-    [] t.op = "Sort"     -> DoSort(t.i)
-    [] t.op = "SortBy"   -> DoSortBy(t.f, t.i)
-    [] t.op = "Distinct" -> DoDistinct(t.i)
+    [] t.op = "Tail" /\ pool[t.i].len > 0 /\ TailS(Cur(t.i)) = Ret(t)       -> DoTail(t.i)
+    [] t.op = "PopLast" /\ pool[t.i].len > 0 /\ PopLast(Cur(t.i)) = Ret(t)  -> DoPopLast(t.i)
+    [] t.op = "Distinct" -> FreshNonNil(Ret(t), Rec(t))
+    [] OTHER             -> Fresh(Ret(t), Rec(t))
 
 Apply ==
   /\ l <= Len(Trace)
   /\ (Trace[l].k = 1 => pool = <<>>)
   /\ Trace[l].panic = ""
+  /\ Len(Trace[l].pool) = Len(pool) + 1
   /\ Act(Trace[l])
   /\ Observed(Trace[l])
 
